@@ -27,6 +27,15 @@ BACKENDS = {'VirtualFileSystem': '_mapping', 'ZipFileSystem': '_name_to_info', '
 ATTR_FORMS: dict = {}      # per index comprehension: `<var>.filename` is SLASHED when <var> iterates ZipFile.infolist() (zip member names use forward slashes)
 
 
+def _anc19(mod: Any, n: ast.AST, stop: Any) -> List[ast.AST]:
+    out = []
+    p = mod.parents.get(n)
+    while p is not None and p is not stop:
+        out.append(p)
+        p = mod.parents.get(p)
+    return out
+
+
 def run(ctx: Any, prog: Program) -> None:
     fs = prog.module('filesys')
     ctx.not_decided += ['byte equality across backends', 'RawFileSystem case behaviour (depends on the operating system)', 'VPK.filenames()/fileinfos() folder filters (VPK API, not the filesystem layer)']
@@ -268,7 +277,19 @@ def run(ctx: Any, prog: Program) -> None:
     # re-spelled (case-folded) at registration makes a `Materials` folder on disk unreachable
     from engine.forms import FormEnv as _FE, FOLDED as _FOLDED
     aenv = _FE(ads, param_forms={})
-    stored_prefixes = [c.args[-1].elts[1] for c in inserts + appends if c.args and isinstance(c.args[-1], ast.Tuple) and len(c.args[-1].elts) == 2]
+    def pair_of(e_: ast.AST) -> Optional[ast.Tuple]:
+        # the pair itself, or a local assigned once from it (`entry = (sys, prefix)`)
+        if isinstance(e_, ast.Name):
+            d_ = [a_.value for a_ in ast.walk(ads) if isinstance(a_, ast.Assign) and any(isinstance(t, ast.Name) and t.id == e_.id for t in a_.targets)]
+            e_ = d_[0] if len(d_) == 1 else e_
+        return e_ if isinstance(e_, ast.Tuple) and len(e_.elts) == 2 else None
+    stored_prefixes = [pair_of(c.args[-1]).elts[1] for c in inserts + appends if c.args and pair_of(c.args[-1]) is not None]
+    # every call registers the member: an early exit ("already there") ignores a repeated add with priority=True - the chain keeps answering
+    # from the member that was first before - and drops a second member that merely compares equal (same class and path label)
+    skips = [n for n in walk_no_nested(ads) if isinstance(n, ast.Return)]       # (a raise is a loud refusal, not a silent drop)
+    guarded = [c for c in inserts + appends if any(isinstance(a_, ast.If) and not any(isinstance(x, ast.Name) and x.id == 'priority' for x in ast.walk(a_.test)) for a_ in _anc19(fs, c, ads))]
+    ctx.check('C19.H4', not skips and not guarded, fs, (skips + guarded)[0] if skips or guarded else ads, f'add_sys does not always register the member (`{U((skips + guarded)[0])[:50] if skips or guarded else ""}`): a filesystem added again '
+              'with priority=True must move to the front of the search order, and two members that compare equal (same class and path) can hold different files', func='FileSystemChain.add_sys', text='every add_sys call registers the member')
     ctx.shape('C19.H4', len(stored_prefixes) == len(inserts) + len(appends) and bool(stored_prefixes), fs, ads, 'add_sys stores (system, prefix) pairs', func='FileSystemChain.add_sys', text='prefix stored as given')
     prefix_folded_at_store = False
     for sp_ in stored_prefixes:
@@ -361,6 +382,8 @@ def run(ctx: Any, prog: Program) -> None:
 
 
 MUTANTS = [
+    {'id': 'add_sys_skips_present_member', 'file': 'filesys.py', 'find': "        if priority:\n            self.systems.insert(0, (sys, prefix))", 'replace': "        if (sys, prefix) in self.systems:\n            return\n        if priority:\n            self.systems.insert(0, (sys, prefix))", 'expect': 'C19.H4'},
+    {'id': 'ok_add_sys_pair_in_local', 'file': 'filesys.py', 'find': "        if priority:\n            self.systems.insert(0, (sys, prefix))\n        else:\n            self.systems.append((sys, prefix))", 'replace': "        entry = (sys, prefix)\n        if priority:\n            self.systems.insert(0, entry)\n        else:\n            self.systems.append(entry)", 'expect': None},
     {'id': 'raw_exists_accepts_folders', 'file': 'filesys.py', 'find': "        return os.path.isfile(self._resolve_path(name))", 'replace': "        return os.path.exists(self._resolve_path(name))", 'expect': 'C19.H5'},
     {'id': 'chain_memo_never_dropped', 'file': 'filesys.py', 'find': "        \"\"\"Search for a file on each filesystem in turn.\"\"\"\n", 'replace': "        \"\"\"Search for a file on each filesystem in turn.\"\"\"\n        try:\n            return self._located[name]\n        except KeyError:\n            pass\n", 'extra': [{'file': 'filesys.py', 'find': "        super().__init__('')\n        self.systems = []\n", 'replace': "        super().__init__('')\n        self.systems = []\n        self._located = {}\n"}, {'file': 'filesys.py', 'find': "            return File(self, full_name, file_info)\n", 'replace': "            self._located[name] = File(self, full_name, file_info)\n            return self._located[name]\n"}], 'expect': 'C19.H4'},
     {'id': 'vpk_exists_asks_archive', 'file': 'filesys.py', 'find': "        return name.casefold().replace('\\\\', '/') in self._name_to_file\n", 'replace': "        return name.casefold().replace('\\\\', '/') in self.vpk\n", 'expect': 'C19.H1'},
